@@ -21,7 +21,10 @@ Contract == [ sift |-> "SingleSignal", ensemble_sift |-> "SingleSignal", complet
               frequency_transform |-> "VectorOrColumn", get_cycle_vector |-> "VectorOrColumn",
               hilberthuang |-> "EqualLen", hilberthuang_1d |-> "EqualLenColumns", holospectrum |-> "EqualLenColumns",
               get_cycle_stat |-> "EqualLen", phase_align |-> "EqualLen", bin_by_phase |-> "EqualLen",
-              amplitude_normalise |-> "Columns" ]
+              amplitude_normalise |-> "Columns",
+              sift_second_layer |-> "Columns", mask_sift_second_layer |-> "Columns",
+              \* the cycle routines also accept a Cycles container instead of a cycle vector
+              get_cycle_stat_obj |-> "EqualLen", phase_align_obj |-> "EqualLen", get_control_points_obj |-> "EqualLen" ]
 EPs == DOMAIN Contract
 Layouts == {"vector", "column", "trailing_ones", "two_columns", "row", "three_d", "mismatch"}
 \* verdict dictated by the contract; "n/a" = the contract says nothing about this layout (not exercised)
